@@ -175,6 +175,7 @@ func c12Oracle(c *C12Case) string {
 	// -0 and +0 are the same number: an omitted "-0" coming back as 0 is not a loss
 	SignedZerosEqual = true
 	defer func() { SignedZerosEqual = false }()
+	defer guardCall("INI write/read round trip")()
 	var b1 *Built
 	if pm := Safely(func() { b1 = Build(c.D) }); pm != "" || b1.Err != nil {
 		st.Label("skip: setup error")
